@@ -1,4 +1,5 @@
 import Model.Reg
+import Model.Cpm
 import Drivers.Common
 /-! `vm_c10`: line protocol over `Model.Reg` (the sequential registry of `runtime.VM`).
 
@@ -12,6 +13,12 @@ import Drivers.Common
           sf|gfile <k>           SetPhpFileCache · GetPhpFileCache
     name `~` = the empty string
     res:  ok nil miss hit:<id> hitI:<id> any:<id>,<id>… errClass errIface errBoth errFunc errConst errLoad
+
+  cpm <dirs> <files> <op>|<op>|…   → <res>|…   (`Model.Cpm`, the class-path manager, from the empty manager)
+    dirs / files: `|`-separated absolute paths that exist (sorted, so that the entries of one
+                  directory appear in the order `os.ReadDir` lists them)
+    ops:  an <namespace> <path>    AddNamespace          res: ok
+          fc <class name>          FindClassFile         res: miss | hit:<file>
 -/
 open Model.Reg
 
@@ -52,11 +59,55 @@ def showRes : Res → String
   | .errClass => "errClass" | .errIface => "errIface" | .errBoth => "errBoth"
   | .errFunc => "errFunc" | .errConst => "errConst" | .errLoad => "errLoad"
 
+/-! ### `Model.Cpm` over a listed file system -/
+
+def parentOf (p : String) : String :=
+  match (p.splitOn "/").reverse with
+  | _ :: rest => "/".intercalate rest.reverse
+  | [] => ""
+
+def baseOf (p : String) : String := (p.splitOn "/").getLastD ""
+
+/-- first entry of `dir` in `listing` whose name equals `name` case-insensitively -/
+def findFold (listing : List String) (dir name : String) : Option String :=
+  listing.find? (fun p => parentOf p == dir && (baseOf p).toLower == name.toLower)
+
+def diskOf (dirs files : List String) : Model.Cpm.Disk where
+  exist p := dirs.contains p || files.contains p
+  sub p part :=
+    let q := p ++ "/" ++ part
+    if dirs.contains q then some q else findFold dirs p part
+  file p cls :=
+    let cands := [cls ++ ".zy", cls ++ ".php"]
+    match cands.find? (fun fn => files.contains (p ++ "/" ++ fn)) with
+    | some fn => some (p ++ "/" ++ fn)
+    | none => cands.findSome? (fun fn => findFold files p fn)
+
+/-- `splitClassName` + `splitNamespace`: namespace parts (empty parts dropped), simple name,
+and the whole name when it contains a backslash -/
+def splitClass (name : String) : List String × String × Option String :=
+  let raw := name.splitOn "\\"
+  (raw.dropLast.filter (· != ""), raw.getLastD "", if raw.length > 1 then some name else none)
+
+def parseCpmOp (s : String) : Option Model.Cpm.Op :=
+  match s.splitOn " " with
+  | ["an", n, p] => some (.add ((n.splitOn "\\").filter (· != "")) p)
+  | ["fc", n] => let (parts, cls, full) := splitClass n; some (.find parts cls full)
+  | _ => none
+
+def showCpmRes : Model.Cpm.Res → String
+  | .ok => "ok" | .miss => "miss" | .hit f => "hit:" ++ f
+
 def handle (line : String) : String :=
   match line.splitOn "\t" with
   | ["seq", ops] =>
       match (if ops.isEmpty then some [] else (ops.splitOn "|").mapM parseOp) with
       | some ops => "|".intercalate ((trace init ops).map showRes)
+      | none => "bad-op"
+  | ["cpm", dirs, files, ops] =>
+      let d := diskOf (dirs.splitOn "|") (files.splitOn "|")
+      match (if ops.isEmpty then some [] else (ops.splitOn "|").mapM parseCpmOp) with
+      | some ops => "|".intercalate ((Model.Cpm.trace d Model.Cpm.init ops).map showCpmRes)
       | none => "bad-op"
   | _ => "bad-op"
 
